@@ -9,7 +9,9 @@ package props
 import (
 	"encoding/json"
 	"fmt"
+	"math/big"
 	"regexp"
+	"strings"
 
 	"verif/internal/gen"
 	"verif/internal/lib"
@@ -31,8 +33,148 @@ func c02Sizes(tier string) (units, per int) {
 	return 256, 24
 }
 
+// c02Exhaustive: small-scope exhaustive part. Every combination of min / max over a grid of
+// bounds with every exclusive-flag combination, on an example placed so that Check accepts,
+// against every document numeral of a value grid in several spellings; and every
+// minLength/maxLength pair over 0..4 against ASCII strings of length 0..5.
+const c02ExhUnits = 16
+
+func c02Exhaustive(c *mon.Ctx, part int) {
+	grid := []string{"-2", "-1.5", "-1", "-0.5", "0", "0.5", "1", "1.5", "2"}
+	var docs []*model.Val
+	for _, g := range []string{"-2.5", "-2", "-1.75", "-1.5", "-1", "-0.5", "-0.25", "0", "0.25", "0.5", "1", "1.25", "1.5", "2", "2.5"} {
+		for _, sp := range []string{g, g + "0", "" } {
+			if sp == "" {
+				x, _ := model.Rat(g)
+				sp = gen.RatText(x) + "e0"
+			}
+			if !strings.Contains(sp, ".") && strings.HasSuffix(sp, "0") && sp != g && !strings.Contains(sp, "e") {
+				sp = g + ".0"
+			}
+			docs = append(docs, model.VNumber(sp))
+		}
+	}
+	idx := 0
+	flags := []int{0, 1, 2} // absent, false, true
+	for _, lo := range append([]string{""}, grid...) {
+		for _, hi := range append([]string{""}, grid...) {
+			for _, fl := range flags {
+				for _, fh := range flags {
+					idx++
+					if idx%c02ExhUnits != part {
+						continue
+					}
+					if lo == "" && fl != 0 || hi == "" && fh != 0 || lo == "" && hi == "" {
+						continue
+					}
+					// example strictly inside when possible
+					ex := ""
+					switch {
+					case lo != "" && hi != "":
+						a, _ := model.Rat(lo)
+						b, _ := model.Rat(hi)
+						if a.Cmp(b) > 0 || (a.Cmp(b) == 0 && (fl == 2 || fh == 2)) {
+							continue
+						}
+						m := new(big.Rat).Add(a, b)
+						m.Quo(m, big.NewRat(2, 1))
+						ex = gen.RatText(m)
+					case lo != "":
+						a, _ := model.Rat(lo)
+						ex = gen.RatText(new(big.Rat).Add(a, big.NewRat(1, 1)))
+					default:
+						b, _ := model.Rat(hi)
+						ex = gen.RatText(new(big.Rat).Sub(b, big.NewRat(1, 1)))
+					}
+					var n *model.Node
+					if strings.Contains(ex, ".") {
+						n = model.Flt(ex)
+					} else {
+						n = model.Flt(ex + ".0")
+					}
+					if lo != "" {
+						n.Rules = append(n.Rules, model.RNum("min", lo))
+						if fl != 0 {
+							n.Rules = append(n.Rules, model.RBool("exclusiveMinimum", fl == 2))
+						}
+					}
+					if hi != "" {
+						n.Rules = append(n.Rules, model.RNum("max", hi))
+						if fh != 0 {
+							n.Rules = append(n.Rules, model.RBool("exclusiveMaximum", fh == 2))
+						}
+					}
+					c02ExhJudge(c, n, docs)
+				}
+			}
+		}
+	}
+	// string lengths
+	var sdocs []*model.Val
+	for l := 0; l <= 5; l++ {
+		sdocs = append(sdocs, model.VString(strings.Repeat("a", l)))
+		if l > 0 {
+			sdocs = append(sdocs, model.VString(strings.Repeat("a", l-1)+"\n"))
+		}
+	}
+	for lo := -1; lo <= 4; lo++ {
+		for hi := -1; hi <= 4; hi++ {
+			idx++
+			if idx%c02ExhUnits != part || (lo < 0 && hi < 0) || (lo >= 0 && hi >= 0 && lo > hi) {
+				continue
+			}
+			l := lo
+			if l < 0 {
+				l = hi
+			}
+			n := model.Str(strings.Repeat("a", l))
+			if lo >= 0 {
+				n.Rules = append(n.Rules, model.RInt("minLength", lo))
+			}
+			if hi >= 0 {
+				n.Rules = append(n.Rules, model.RInt("maxLength", hi))
+			}
+			c02ExhJudge(c, n, sdocs)
+		}
+	}
+}
+
+func c02ExhJudge(c *mon.Ctx, n *model.Node, docs []*model.Val) {
+	s := &model.Schema{Root: n}
+	text := model.Canonical(n)
+	built := buildSchema(lib.Spec{Text: text})
+	if !built.ok {
+		c.Violate("exh-check", c02Case{text, ""}, "accept", built.check.String(), "Check rejects a rule set whose example obeys it (small-scope exhaustive part)")
+		return
+	}
+	c.DistinctByConstruction(1)
+	c.Count("small-scope rule sets", 1)
+	for _, d := range docs {
+		doc := d.Text()
+		if d.K == model.VNum && zeroMantissaExp.MatchString(d.Num) {
+			continue
+		}
+		o := model.NewOracle(s)
+		want := o.Accepts(d)
+		obs := built.validate(doc)
+		c.Eval(1)
+		c.Count("small-scope pairs", 1)
+		if want == model.Unspec {
+			continue
+		}
+		c.Count(fmt.Sprintf("verdict expected=%s observed=%s", want, obs.Verdict()), 1)
+		if obs.Verdict() != want.String() {
+			c.Violate("validate", c02Case{text, doc}, want.String(), obs.String(), "Validate verdict differs from the scalar-rule oracle (small-scope exhaustive; "+o.Why+")")
+		}
+	}
+}
+
 func c02Run(c *mon.Ctx, unit int) {
-	_, per := c02Sizes(c.Tier)
+	units, per := c02Sizes(c.Tier)
+	if unit >= units {
+		c02Exhaustive(c, unit-units)
+		return
+	}
 	r := c.Rng(2)
 	for k := 0; k < per; k++ {
 		sc := gen.Scalar(r)
@@ -138,7 +280,7 @@ func init() {
 			"email/uri cells are judged only for hand-classified clear cases (their language is defined by Go's std parsers)",
 			"string length cells where byte and rune counts straddle the bound, and const on numerically-equal-but-differently-spelled numbers, are Unspecified",
 		},
-		Units: func(tier string, seed uint64) int { u, _ := c02Sizes(tier); return u },
+		Units: func(tier string, seed uint64) int { u, _ := c02Sizes(tier); return u + c02ExhUnits },
 		Run:   c02Run,
 		Replay: map[string]func(json.RawMessage) string{
 			"validate": func(raw json.RawMessage) string {
@@ -150,6 +292,11 @@ func init() {
 				var cs c02Case
 				json.Unmarshal(raw, &cs)
 				return noPanic(lib.Validate(lib.Spec{Text: cs.Schema}, cs.Doc))
+			},
+			"exh-check": func(raw json.RawMessage) string {
+				var cs c02Case
+				json.Unmarshal(raw, &cs)
+				return lib.Check(lib.Spec{Text: cs.Schema}).Verdict()
 			},
 			"check": func(raw json.RawMessage) string {
 				var cs c02Case
